@@ -23,6 +23,18 @@
 (*          interior threshold masks.                                      *)
 (* images   FAMILY "all": every image over 0..V-1 ; "quad": the images     *)
 (*          p |-> (a p^2 + b p + c) mod P  for all a,b,c in 0..P-1         *)
+(* covariance (used by the harness, harness/c13_replay.py): the model only *)
+(*          COMPARES pixel values, so every emitted case stands for all    *)
+(*          order preserving maps of its values (scaled, shifted to mixed  *)
+(*          sign / all negative / below the sparse kernel's start value    *)
+(*          -1e10) with the same labels, and it does not mention threads:  *)
+(*          the replay runs each case at an explicit thread count 1..64.   *)
+(*          SparseAgrees is judged here on the model; on the real code the *)
+(*          harness compares the real dense and sparse outputs whenever    *)
+(*          the listed set is closed under Up (no listed pixel climbs to   *)
+(*          an unlisted one; with L = Listed(cut) inside Interior this is  *)
+(*          automatic, the harness' masks drop border pixels so it is      *)
+(*          tested there from the image).                                  *)
 (***************************************************************************)
 EXTENDS Integers, Sequences, FiniteSets, TLC, Json
 
